@@ -4,7 +4,7 @@
 #  (1) applies and compiles, (2) passes the existing test suite, (3) makes the demo fail,
 #  and that (4) the demo passes without the change.  Prints one line per step.
 D=$(realpath "$1"); CRATE="${2:-routee-compass-core}"
-WT=/tmp/wt/confirm
+WT=${CONFIRM_WT:-/tmp/wt/confirm}
 if [ ! -d "$WT" ]; then git -C /repo worktree add -f --detach "$WT" HEAD >/dev/null 2>&1 || exit 2; fi
 git -C "$WT" checkout -q --detach "$(git -C /repo rev-parse HEAD)" 2>/dev/null
 git -C "$WT" checkout -- . ; git -C "$WT" clean -fdq -e rust/target
